@@ -400,7 +400,7 @@ PROPS['C04'] = dict(
 # error mapping of the net layer: the injected-socket-error lines of mode c11 (real Channel::send_probe vs the model of
 # Net/Dispatch*.v / ChannelSend.v) join the strategy-level runs, whose send outcomes are already classified.
 def is_c11_line(inp):
-    return inp.split(' ', 1)[0] in ('c11', 'c11fill')
+    return inp.split(' ', 1)[0] in ('c11', 'c11fill', 'c11seq')
 
 
 _c09 = PROPS['C09']
@@ -594,3 +594,40 @@ PROPS['C08'] = dict(
     nontrivial=lambda inp, o: (inp.startswith('recv2 ') or recv_decoded(inp, o)) if is_recv_line(inp) else _c08['nontrivial'](inp, o),
     rule=_c08['rule'] + ' || one receive call = one wait: mode recv counts is_readable / recv_from calls of the real Channel::recv_probe per call, incl. an unrelated ICMP datagram queued in front of a genuine response (recv2 lines)',
 )
+
+
+# ---- C13: the checksums the tracer actually puts on the wire: the dispatched datagrams of mode c11 (ICMP / UDP over both families, every
+# packet size and payload pattern, Paris) are verified by an independent RFC 1071 summation (oracle tag C13) and compared with the model
+_c13 = PROPS['C13']
+PROPS['C13'] = dict(
+    _c13, modes=_c13['modes'] + [('hcore', 'c11')],
+    compare=lambda inp, a, b: compare_c11(inp, a, b) if is_c11_line(inp) else _c13.get('compare', compare_exact)(inp, a, b),
+    nontrivial=lambda inp, o: c11_nontrivial(inp, o) if is_c11_line(inp) else _c13['nontrivial'](inp, o),
+    rule=_c13['rule'] + ' || the checksums on the wire: mode c11 (real Channel::send_probe for every cell, packet size 0..1030, every payload pattern and tos): ICMP / ICMPv6 / UDP checksums of the dispatched datagram verify under an independent RFC 1071 summation with the RFC 768 / 8200 pseudo-header',
+)
+
+
+# ---- end to end at the byte level (mode e2e): the real Tracer / Strategy over the real Channel on a simulated socket layer with a simulated
+# path behind it (conforming routers and target built by the independent encoder).  The model's part is the builder verdict; the rest is the
+# ground-truth oracle of the simulation, tagged per property.
+def is_e2e_line(inp):
+    return inp.startswith('e2e ')
+
+
+def compare_e2e(inp, impl_out, model_out):
+    return impl_out.split(' ')[0].split(':')[0] == model_out
+
+
+E2E_RULE = (' || end to end (mode e2e): for ICMP, UDP classic / Paris / Dublin x port directions and TCP over both families the real Builder -> Tracer -> Strategy -> '
+            'Channel<SimSocket> chain runs N rounds against a simulated path (L-1 conforming routers + target, optional silent router, first_ttl > 1, target beyond max_ttl, '
+            'initial sequences near the end of the sequence space, windows 1..100, long silent runs that walk the sequence space); oracle from the ground truth of the simulation: '
+            'N rounds without panic or error, every probed hop shows N sent / N answered from exactly its router, the hop table is first_ttl..min(L, max_ttl)')
+for _p in ('C16', 'C01', 'C02', 'C10', 'C09', 'C19'):
+    _old = PROPS[_p]
+    PROPS[_p] = dict(
+        _old, modes=_old['modes'] + [('hcore', 'e2e')],
+        crates=sorted(set(_old.get('crates', ['hcore']) + ['hcore'])),
+        compare=(lambda o: lambda inp, a, b: compare_e2e(inp, a, b) if is_e2e_line(inp) else o['compare'](inp, a, b))(_old),
+        nontrivial=(lambda o: lambda inp, out: ('hops=-' not in out and out.startswith('accept')) if is_e2e_line(inp) else o['nontrivial'](inp, out))(_old),
+        rule=_old['rule'] + E2E_RULE,
+    )
